@@ -4032,6 +4032,7 @@ def _fix_duplicate_regular_imports(source: str) -> str:
 
     import_aliases = collections.defaultdict(set)
     import_nodes = collections.defaultdict(list)
+    modules_bound_to = collections.defaultdict(set)
 
     for node in core.walk(root, ast.Import):
         if core.has_ignore_comment(source, core.get_charnos(node, source)):
@@ -4044,20 +4045,22 @@ def _fix_duplicate_regular_imports(source: str) -> str:
             )
             name = alias.name
 
-            if node not in import_nodes[asname]:  # import a, a
-                import_nodes[asname].append(node)
+            if node not in import_nodes[name, asname]:  # import a, a
+                import_nodes[name, asname].append(node)
+            modules_bound_to[asname].add(name)
             import_aliases[name].add(asname)
 
     replacements = {}
     removals = set()
 
-    for asname, nodes in import_nodes.items():
-        if len(nodes) > 1:
+    for (name, asname), nodes in import_nodes.items():
+        # `import a as x` after `import b as x` rebinds x: neither of them is a duplicate
+        if len(nodes) > 1 and len(modules_bound_to[asname]) == 1:
             for node in nodes[1:]:
                 new_aliases = {
                     (alias.name, alias.asname if alias.asname != alias.name else None)
                     for alias in node.names
-                    if (alias.asname or alias.name) != asname
+                    if (alias.name, alias.asname or alias.name) != (name, asname)
                 }
                 new_names = [
                     ast.alias(name=name, asname=asname)
